@@ -49,6 +49,13 @@ def strip_mut(t):
             return t
 
 
+def _is_kind_enum(cad, path):
+    """the private field-less enum of metric kinds in the builder module (whatever it is called)"""
+    a = cad.adts.get(path)
+    return bool(a) and a['kind'] == 'Enum' and path.startswith('cadence::builder::') and len(a['variants']) == 7 and \
+        all(not v['fields'] for v in a['variants'])
+
+
 class FormatterModel:
     def __init__(self, ctx, rep):
         self.ok = False
@@ -134,7 +141,7 @@ class FormatterModel:
                 roles['key'] = n
             elif v[0] == 'adt' and v[1] == MV:
                 roles['val'] = n
-            elif v[0] == 'adt' and v[1].endswith('MetricType'):
+            elif v[0] == 'adt' and _is_kind_enum(cad, v[1]):
                 roles['type'] = n
         # setters
         for meth, role in (('with_timestamp', 'ts'), ('with_sampling_rate', 'rate'), ('with_container_id', 'cid'), ('with_tag', 'tags')):
@@ -761,7 +768,7 @@ class _SubBody:
 # ------------------------------------------------------------------ R3 type codes
 def rule_type_codes(fm, rep, rid='R3'):
     cad = fm.cad
-    bs = [b for b in cad.all_bodies if b.impl_trait == 'core::fmt::Display' and (b.impl_self or '').endswith('MetricType') and b.name == 'fmt']
+    bs = [b for b in cad.all_bodies if b.impl_trait == 'core::fmt::Display' and _is_kind_enum(cad, type_head(b.impl_self or '')) and b.name == 'fmt']
     b0 = one(rep, rid, 'impl Display for MetricType', bs)
     if b0 is None:
         return
@@ -853,7 +860,7 @@ def rule_setters(fm, rep, rid='R9', only=None):
         okg = True
         for eb in eff_blocks:
             gs = guards_of(T, eb) or []
-            if not any(norm(dt)[0] == 'discr' and ('variant', 'Success') in labels for dt, labels, _ in gs):
+            if not any(norm(dt)[0] == 'discr' and ('variant', names(cad).v_success) in labels for dt, labels, _ in gs):
                 okg = False
         if shape in ('scalar', 'ref'):
             fld = fm.roles[role]
@@ -925,7 +932,7 @@ def rule_constructors(fm, rep, rid='R8'):
         if len(rts) == 1:
             r = list(rts)[0]
             if r[0] == 'adt' and r[1] == adt:
-                s = dict(r[3]).get('repr')
+                s = dict(r[3]).get(names(cad).string_field(adt))
                 if s is not None and term_callee_is(s, strip_generics(fm.format.path)):
                     f = strip_mut(s[2][0])
                     if f[0] == 'adt' and f[1] == fm.F:
@@ -950,8 +957,8 @@ def rule_constructors(fm, rep, rid='R8'):
         if len(fr) == 1 and len(am) == 1:
             r1 = ret_terms(Terms(fr[0]), [0])
             r2 = ret_terms(Terms(am[0]), [0])
-            ok = (len(r1) == 1 and list(r1)[0][0] == 'adt' and dict(list(r1)[0][3]).get('repr') == ('param', 1)
-                  and len(r2) == 1 and self_field_name(list(r2)[0]) == 'repr' and
+            ok = (len(r1) == 1 and list(r1)[0][0] == 'adt' and dict(list(r1)[0][3]).get(names(cad).string_field(adt)) == ('param', 1)
+                  and len(r2) == 1 and self_field_name(list(r2)[0]) == names(cad).string_field(adt) and
                   not any(y[0] == 'call' and not (y[1].endswith('Deref>::deref') or y[1].endswith('::as_str')) for y in walk(list(r2)[0])))
             k += 1
         rep.ob(rid, 'metric/%s/string-kept-verbatim' % ty, ok, fr[0].where() if fr else '', 'From<String> stores the text, as_metric_str returns it unchanged')
